@@ -2151,10 +2151,15 @@ impl Conv<&air::Expression> for ProtoExpression {
                         .get_value()
                         .map_err(|_| SimulatorError::unresolved_expression(&comptime.token))?
                         .clone();
+                    // A constant subexpression folded by the analyzer keeps the
+                    // self-determined width in its type but carries its value at
+                    // the context width it was evaluated in (`~8'h6` assigned to
+                    // 16 bits is 16'hfff9): the node is as wide as the value.
                     let width = comptime
                         .r#type
                         .total_width()
-                        .ok_or_else(|| SimulatorError::unresolved_expression(&comptime.token))?;
+                        .ok_or_else(|| SimulatorError::unresolved_expression(&comptime.token))?
+                        .max(value.width());
                     let expr_context: ExpressionContext = (&comptime.expr_context).into();
 
                     Ok(ProtoExpression::Value {
